@@ -22,7 +22,7 @@ RULE += (
 ASSUMPTIONS = [
     "oracle = vlib/ref6.py (own Draft-6 reading), self-checked per case against jsonschema.Draft6Validator",
     "numbers: |int|<2^31 and dyadic floats (exact IEEE arithmetic), plus integers up to 2^64 (and a few exactly representable floats up to 2^70); every multipleOf is an integer or a dyadic float, so 'is a multiple' has one answer whatever the arithmetic; other extremes belong to C10",
-    "jsonschema self-check is skipped for (float multipleOf, |number| > 2^53): jsonschema divides in floating point there",
+    "jsonschema self-check is skipped for (float multipleOf, |number| >= 2^50 or 0 < |number| < 1e-300): jsonschema divides in floating point there (rounding, underflow)",
     "regex patterns from a pool on which ECMA-262 and Python re agree",
     "property-name pool has pairwise distinct Python images (collisions belong to C12)",
     "required-with-default waiver is three-valued ('either'): both accept and reject are tolerated",
@@ -38,7 +38,8 @@ except Exception:  # noqa: BLE001
 
 observe.register_formats()
 _PURE = ref6.Opts(int_is_int=False, formats={}, waiver=False)
-_DEV = ref6.Opts(int_is_int=True, formats=sg.FORMAT_PREDICATES, waiver=True)
+_DEV = ref6.Opts(int_is_int=True, formats=sg.FORMAT_PREDICATES, waiver=True, regex="ecma")
+_DEV_PYRE = ref6.Opts(int_is_int=True, formats=sg.FORMAT_PREDICATES, waiver=True, regex="python")
 
 
 def cfg(ctx=None):
@@ -51,7 +52,10 @@ BIG_INTS = [2 ** 53 + 1, 9007199254740993, 7 * 10 ** 16 + 1, 2 ** 64, 3 * 2 ** 6
             6 * 10 ** 17, 2 ** 53, 35 * 2 ** 50 + 7]
 
 
-BIG_FLOATS = [float(2 ** 60), float(3 * 2 ** 60), float(2 ** 53 + 2), float(2 ** 70), 1.5 * 2 ** 60]
+# strings on which ECMA 262 and Python `re` read the pooled patterns differently
+DIALECT_STRINGS = ["b\n", "\n", "a\r", "12\n", "ab\n", "a\u2028", "foo\n", "\r\n"]
+BIG_FLOATS = [float(2 ** 60), float(3 * 2 ** 60), float(2 ** 53 + 2), float(2 ** 70), 1.5 * 2 ** 60, 5e-324, 1e-320,
+              2.0 ** -1074 * 6]
 
 
 def _float_multiple(schema):
@@ -65,7 +69,7 @@ def _has_big(value):
     if isinstance(value, bool):
         return False
     if isinstance(value, (int, float)):
-        return abs(value) >= 2 ** 50
+        return abs(value) >= 2 ** 50 or 0 < abs(value) < 1e-300
     if isinstance(value, list):
         return any(_has_big(v) for v in value)
     if isinstance(value, dict):
@@ -96,6 +100,10 @@ def cases(draw, c):
             else:
                 big += [k, int(m * 4) * k]
         values = values + big + [[b] for b in big[:1]] + [{"a": big[0]}]
+    if not findings.is_open(PID, "regex-dialect") and isinstance(schema, dict) and "attern" in canon(schema):
+        # (while the finding is open these strings are excluded by construction: every one of them would hit it)
+        values = values + draw(st.lists(st.sampled_from(DIALECT_STRINGS), min_size=1, max_size=3))
+        values.append({draw(st.sampled_from(DIALECT_STRINGS)): 1})
     case = {"schema": schema, "values": values, "pipeline": draw(st.sampled_from(observe.PIPELINES))}
     if isinstance(schema, dict) and draw(st.integers(0, 15)) == 7:
         # "only registered string formats are checked" holds at every moment: a name nobody has registered when the
@@ -209,6 +217,38 @@ def judge(element, schema, values, opts, label, stats, key_schema):
 
 
 replay_predicate = predicate
+
+
+@findings.classifier(PID, "regex-dialect")
+def _regex_dialect(case, failure):
+    """The verdict is the one Draft 6 would give IF patterns were Python `re` expressions: `$` also matches before a
+    final newline, `.` matches CR / U+2028 / U+2029, `\\d \\w \\s` are Unicode-aware. Anything else stays a violation."""
+    if failure.get("sub") != "call" or failure.get("kind") not in ("accepts-invalid", "rejects-valid"):
+        return False
+    if not set(failure.get("failed_keywords") or ["pattern"]) <= {"pattern", "patternProperties", "additionalProperties",
+                                                                  "propertyNames", "properties", "items", "anyOf",
+                                                                  "oneOf", "allOf", "not", "contains", "dependencies",
+                                                                  "additionalItems"}:
+        return False
+    try:
+        as_python = ref6.validate(copy.deepcopy(case["schema"]), copy.deepcopy(failure["value"]), _DEV_PYRE)
+        as_ecma = ref6.validate(copy.deepcopy(case["schema"]), copy.deepcopy(failure["value"]), _DEV)
+    except Exception:  # noqa: BLE001
+        return False
+    if as_python == as_ecma:
+        return False
+    statham_accepts = failure["kind"] == "accepts-invalid"
+    return as_python is None or as_python is statham_accepts
+
+
+PROBES = {
+    "regex-dialect": [
+        {"schema": {"pattern": "b$"}, "values": ["b\n", "b", "a"]},
+        {"schema": {"type": "string", "pattern": "^.{2}$"}, "values": ["a\r", "ab"]},
+        {"schema": {"patternProperties": {"b$": False}}, "values": [{"b\n": 1}]},
+        {"schema": {"propertyNames": {"pattern": "^a$"}}, "values": [{"a\n": 1}, {"a": 1}]},
+    ]
+}
 
 
 ATHERIS_RUNS = 10000  # per campaign; shards 0-2 of the thorough tier run one each
